@@ -4,7 +4,7 @@
 From Coq Require Import List Bool NArith String.
 From PC Require Import Base.Cmp Base.Result Model.Pep440 Spec.Pep440Spec Spec.Specifier Model.VConstraint
      Proofs.VersionFacts Proofs.RangeSpec Proofs.SpecifierAgree.
-From PC Require Import Proofs.UnionHull Proofs.UnionExact Proofs.InterExact Proofs.ParseCompose Proofs.Pep440RoundTrip Proofs.ClauseText.
+From PC Require Import Proofs.UnionHull Proofs.UnionExact Proofs.InterExact Proofs.ParseCompose Proofs.Pep440RoundTrip Proofs.ClauseText Proofs.WildcardText.
 Import ListNotations.
 Open Scope string_scope.
 
@@ -61,6 +61,22 @@ Proof.
 Qed.
 Print Assumptions C04_clause_text_applies.
 
+(* the wildcard clauses, from their text, for every release of one to three components *)
+Theorem C04_wildcard_text : forall m r, (1 <= List.length r <= 3)%nat ->
+  let wild inv := match make_x_constraint_range (bare r) inv m with Ok c => Ok c | Err _ => Err EValue end in
+  parse_single m ("==" ++ rel_text r ++ ".*") = wild false /\
+  parse_single m (rel_text r ++ ".*") = wild false /\
+  parse_single m ("!=" ++ rel_text r ++ ".*") = wild true.
+Proof.
+  intros m r H. cbv zeta. split; [|split].
+  - apply (clause_wildcard m "==" false r H). auto.
+  - apply (clause_wildcard m "" false r H). auto.
+  - apply (clause_wildcard m "!=" true r H). auto.
+Qed.
+Print Assumptions C04_wildcard_text.
+Example C04_wildcard_example : parse_single false "==1.2.*" = Ok (VOne (RR (Some (first_devrelease (bare [1; 2]%N))) (Some (first_devrelease (bare [1; 3]%N))) true false)).
+Proof. vm_compute. reflexivity. Qed.
+
 (* instances with blanks after the operator (the general statement above is for the text without blanks) *)
 Example C04_desugar :
   (exists l, parse "1.2" = Some l /\
@@ -73,7 +89,7 @@ Example C04_desugar :
 Proof. eexists. repeat split; vm_compute; reflexivity. Qed.
 
 (* Not theorems at clause level (decided by the correspondence run and the reference oracle only): the meaning of '!=' as a
-   set (its two half-lines are C04_gt/C04_lt shapes), the wildcard clauses, blanks and upper case inside a clause;
+   set (its two half-lines are C04_gt/C04_lt shapes), which versions a wildcard range admits, blanks and upper case inside a clause;
    for '^', '~', '~=' see C15. *)
 
 (* Proved by composition (every comma set of range-like clauses, every '||' of groups): what _parse_constraint builds from the
